@@ -204,18 +204,37 @@ def shard_programs(seed, examples):
     return acc
 
 
+def shard_entry(seed, count):
+    """every kind of exception entry taken in the middle of an IT block, on every configuration (incl. entries routed to Monitor and Hyp mode): the
+    ITSTATE is saved in the SPSR (advanced for SVC, not for the others) and is zero in the handler; C11's cell runner with ITSTATE forced non-zero"""
+    from vf.props import c11
+    acc = Acc()
+    rng = random.Random(seed)
+    cells = []
+    for kind in c11.BITS:
+        if kind == 'reset':
+            continue
+        for cfgname in c11.CFGS:
+            cells += [(kind, cfgname, mode, assign) for mode, assign in c11.cells(kind, cfgname) if dict(assign).get(('cpsr', 5)) == 1]
+    for _ in range(count):
+        kind, cfgname, mode, assign = cells[rng.randrange(len(cells))]
+        c11.run_cell(acc, rng, kind, cfgname, mode, assign, prop='C08', force_it=True)
+    return acc
+
+
 def run(ctx):
     ctx.rule = ('(1) exhaustive: all %d legal (firstcond, mask) pairs x 16 NZCV: IT followed by 1-4 16-bit flag-setting-form ALU / 32-bit MOV '
                 'instructions, then two unconditional flag-setting instructions; (2) Hypothesis-generated blocks whose slots come from a pool '
                 '(every 16-bit data-processing encoding whose S bit is "outside an IT block" (shift/add/sub/mov immediate and register forms, the 13 ALU register forms incl. RSB/MUL/MVN), 32-bit ALU, CMP/TST/CMN inside the block, LDR/STR, SVC, UDF, an aborting LDR, B / BX / POP {pc} as last), with ARM or Thumb '
                 'exception handlers that execute the standard return (MOVS PC,LR / SUBS PC,LR,#n). Every step of the program is compared with '
                 'the reference machine on the complete state (which slot executes, CPSR.IT after every step, flags untouched inside, SPSR IT bits '
-                'on exception entry, IT cleared in the handler, restored by the return). Non-trivial: block of >=2 with an else slot, or flags '
+                'on exception entry, IT cleared in the handler, restored by the return). (3) every kind of exception entry (Undefined, SVC, SMC, Data Abort, IRQ, FIQ, Hyp trap; routed to Monitor / Hyp mode where the configuration has them) taken directly in the middle of an IT block: SPSR holds the ITSTATE, the handler runs with ITSTATE = 0. Non-trivial: block of >=2 with an else slot, or flags '
                 'changed inside, or an exception inside; distinct = (IT, NZCV, slot kinds, handlers).' % len(LEGAL))
     ctx.technique = 'exhaustive enumeration of IT start states + Hypothesis-generated programs, differential against a reference interpreter'
     ctx.assumptions = ['vf/ref (ITSTATE rules, exception entry/return) is a faithful reading of DDI 0406C']
     tasks = [(shard_exhaustive, (i, 8, ctx.shard_seed(i))) for i in range(8)]
     tasks += [(shard_programs, (ctx.shard_seed(100 + i), ctx.n(1200, 40000))) for i in range(24)]
+    tasks += [(shard_entry, (ctx.shard_seed(300 + i), ctx.n(1500, 30000))) for i in range(8)]
     ctx.pmap(_dispatch, tasks)
     ctx.acc.exhaustive = True
     ctx.acc.extra['exhaustive_part'] = 'all legal (firstcond, mask) x NZCV start states'
@@ -226,5 +245,8 @@ def _dispatch(fn, args):
 
 
 def replay(case, bucket=None):
+    if 'kind' in case and 'cfgname' in case:
+        from vf.props import c11
+        return c11.replay(case, bucket)
     res = diff.run(case)
     return [e1prop.sig(res.diffs)] if res.diffs else []
